@@ -45,6 +45,7 @@ def st_soc(tier):
              "csr_dw": 32, "ordering": "big",
              "sram": draw(st.sampled_from([0x100, 0x1000, 0x2000])), "seed": draw(st.integers(0, 2 ** 16))}
         periphs = []
+        pgw_ = c["paging"] // 4
         for pi in range(draw(st.integers(1, 3 if tier == "quick" else 4))):
             regs = []
             for ri in range(draw(st.integers(1, 4))):
@@ -57,7 +58,9 @@ def st_soc(tier):
             if draw(st.integers(0, 3)) == 0:
                 # one register pinned at a fixed location of its bank; lower locations that stay unused get filler registers
                 regs[draw(st.integers(0, len(regs) - 1))]["n"] = draw(st.integers(0, 6))
-            mem = draw(st.one_of(st.none(), st.none(), st.sampled_from([[32, 8], [32, 16], [8, 16], [16, 8], [64, 8], [40, 12], [32, 600], [64, 300], [8, 1100]])))
+            mem = draw(st.one_of(st.none(), st.none(), st.sampled_from([[32, 8], [32, 16], [8, 16], [16, 8], [64, 8], [40, 12],
+                                                                         # larger than one page of this SoC's CSR paging (1, 2, 3 pages; wider than the CSR word)
+                                                                         [32, pgw_ + 88], [64, pgw_ // 2 + 44], [8, 2 * pgw_ + 76], [64, pgw_ + 10], [96, pgw_ // 4 + 30]])))
             slot = draw(st.one_of(st.none(), st.none(), st.integers(4, 12)))
             ev = draw(st.one_of(st.none(), st.fixed_dictionaries({"n": st.integers(1, 3), "irq": st.one_of(st.none(), st.none(), st.integers(0, 31))})))
             const = draw(st.one_of(st.none(), st.integers(0, 2 ** 32 - 1)))
@@ -129,7 +132,7 @@ def _build(case):
                 self.regs.append(o)
             if spec["mem"]:
                 w, d = spec["mem"]
-                self.mem = Memory(w, d, init=[((idx + 1) * 1000003 * (i + 1)) & _m(w) for i in range(d)], name="win")
+                self.mem = Memory(w, d, init=[(((idx + 1) * 1000003 * (i + 1)) * 0x9E3779B97F4A7C15 >> 11) & _m(w) for i in range(d)], name="win")
                 self.specials += self.mem
             if spec.get("const") is not None:
                 self.k = CSRConstant(spec["const"], name="k")
@@ -480,7 +483,10 @@ def run_soc(case):
                     ops.append({"we": 1, "adr": pr["addr"] >> 2, "dat": word // wpp, "sel": 15, "gap": 1})
                 idx.append(len(ops))
                 ops.append({"we": 0, "adr": (base >> 2) + (word % wpp) * per, "dat": 0, "sel": 15, "gap": 1})
-                plan.append(("csrmem", rname, (mem, word), idx))
+                plan.append(("csrmem", rname, (mem, word, 0), idx))
+                if per > 1:           # the last CSR word of the memory word too (its least significant part)
+                    plan.append(("csrmem", rname, (mem, word, per - 1), [len(ops)]))
+                    ops.append({"we": 0, "adr": (base >> 2) + (word % wpp) * per + per - 1, "dat": 0, "sel": 15, "gap": 1})
     # published memory regions: every RAM gets a unique value at its first and last word, all written first and read back
     # afterwards (two regions answering from the same memory, or a region answering outside its window, then show)
     rams = [(n_, m_) for n_, m_ in js["memories"].items() if n_ in ("sram", "main_ram", "extra", "extra2")]
@@ -577,10 +583,10 @@ def run_soc(case):
             if len(idx) > 1:
                 multi = True
         elif kind == "csrmem":
-            mem, word = val
+            mem, word, sub = val
             per = (mem.width + busword - 1) // busword
             exp = mem.init[word] if mem.init and word < len(mem.init) else 0
-            exp_word = (exp >> ((per - 1) * busword)) & _m(busword) if per > 1 else exp & _m(busword)
+            exp_word = (exp >> ((per - 1 - sub) * busword)) & _m(busword)      # most significant part at the lowest address
             if (res[idx[-1]][0] & _m(min(busword, mem.width))) != (exp_word & _m(min(busword, mem.width))):
                 return bad("memory-window", "%s: CSR memory %s published at %#x: word %d reads %#x, memory holds %#x" %
                            (ctx, name, js["csr_bases"][name], word, res[idx[-1]][0], exp), key=_k(case, "c14:memory-window"), cls=cls, cycles=cyc)
